@@ -39,6 +39,8 @@ def hostile_name(gopher_ok=True, min_size=1, max_size=8):
         _chars(pool),
         # characters that some line-splitting and blank-stripping routines treat as line ends / blanks
         st.sampled_from(["\x0b", "\x0c", "\x1c", "\x1d", "\x1e", "\x1f", "\xc2\x85", "\xe2\x80\xa8", "\xe2\x80\xa9", "\xc2\xa0"]),
+        # TAB, CR, LF: names only the URL-based protocols can express
+        *([] if gopher_ok else [st.sampled_from(["\t", "\n", "\r", "\r\n"])]),
     )
     return st.lists(ch, min_size=min_size, max_size=max_size).map("".join)
 
